@@ -56,12 +56,12 @@ def valToDatum : Val → Datum
 /-- does any sub-expression convert a multi-valued operand to string/number (don't-care, see Spec)? -/
 partial def usesMultiConv (env : Env) : Expr → Bool
   | .num _ | .lit _ | .env _ => false
-  | .neg e => usesMultiConv env e || (match eval env e with | some v => multi v | none => false)
+  | .neg e => usesMultiConv env e || (match eval false env e with | some v => multi v | none => false)
   | .bin op a b =>
     usesMultiConv env a || usesMultiConv env b ||
       (match op with
        | .add | .sub | .mul | .div | .mod =>
-         (match eval env a, eval env b with
+         (match eval false env a, eval false env b with
           | some x, some y => multi x || multi y | _, _ => false)
        | _ => false)
   | .call f args =>
@@ -69,7 +69,7 @@ partial def usesMultiConv (env : Env) : Expr → Bool
       (let ks := f.sig.1
        (args.zip ks).any fun (a, k) =>
          (k == .num || k == .lit || (k == .obj && (f == .string || f == .number))) &&
-           (match eval env a with | some v => multi v | none => false))
+           (match eval false env a with | some v => multi v | none => false))
 
 def handle (j : Json) : List (String × Json) :=
   match exprOf (jobj j "e") with
@@ -80,11 +80,15 @@ def handle (j : Json) : List (String × Json) :=
       | .ok (some d) => showDatum d
       | .ok none => "no-result"
       | .error msg => "error:" ++ msg
-    let top := match eval env e with | some v => multi v | none => false
-    let s := match eval env e with
+    let top := match eval false env e with | some v => multi v | none => false
+    let s := match eval false env e with
       | some v => showDatum (valToDatum v)
       | none => "undefined"
-    [("m", m), ("s", s), ("dc", Json.bool (usesMultiConv env e || top))]
+    let alt := match eval true env e with
+      | some v => showDatum (valToDatum v)
+      | none => "undefined"
+    [("m", m), ("s", s), ("dc", Json.bool (usesMultiConv env e || top)),
+     ("alt", Json.mkObj [("C01-number-of-Infinity-string", alt)])]
 
 /-- SF64 primitive stream: op on bit patterns -/
 def handleSF (j : Json) : List (String × Json) :=
@@ -100,14 +104,19 @@ def handleSF (j : Json) : List (String × Json) :=
     | "ceil" => toString (SF.ceil a).toBits
     | "trunc" => toString (SF.trunc a).toBits
     | "round" => toString (xround a).toBits
-    | "rounds" => toString (roundS a).toBits
     | "lt" => toString (SF.flt a b)
     | "le" => toString (SF.fle a b)
     | "eq" => toString (SF.feq a b)
     | "fmt" => showStr (numToLit a)
     | "parse" => toString (numberFromString (jstr j "s").toList).toBits
-    | "parses" => toString (numberOfString (jstr j "s").toList).toBits
     | _ => "bad-op"
-  [("m", r), ("s", r)]
+  let sp : String := match jstr j "op" with
+    | "round" => toString (roundS a).toBits
+    | "parse" => toString (numberOfString (jstr j "s").toList).toBits
+    | _ => r
+  let alt : String := match jstr j "op" with
+    | "parse" => toString (numOfStr true (jstr j "s").toList).toBits
+    | _ => sp
+  [("m", r), ("s", sp), ("alt", Json.mkObj [("C01-number-of-Infinity-string", alt)])]
 
 end YV.Drv.C01
